@@ -229,8 +229,8 @@ Proof. apply cntq_cd_publish. apply cnt_insert_or_touch. Qed.
 (** sharded.rs *)
 Lemma cnt_sort_by_load h n t ids : cnt (sort_by_load h n t ids) 0.
 Proof. unfold sort_by_load. cnt_auto. Qed.
-Lemma cnt_file_exists p : cnt (file_exists p) 1.
-Proof. unfold file_exists. cnt_auto. Qed.
+Lemma cnt_file_exists p n : cnt (file_exists p n) 1.
+Proof. unfold file_exists. destruct (validate n); cnt_auto. Qed.
 Lemma cnt_update_estimate h id u : cnt (update_estimate h id u) 0.
 Proof. unfold update_estimate. cnt_auto. Qed.
 #[export] Hint Resolve cnt_sort_by_load cnt_file_exists cnt_update_estimate : cnt.
@@ -248,7 +248,7 @@ Proof.
   eapply cntq_bind with (K1 := 0) (K2 := 1 + pub_budget (dir ++ ["x"%string])); [apply cnt_sort_by_load| |lia].
   intros [h1 h2] _. cbn beta iota.
   eapply cntq_bind with (K1 := 1); [apply cnt_file_exists| |reflexivity].
-  intros ex _.
+  intros [ex|e|] _; try (apply cntq_ret; [unfold pub_budget; lia|exact I]).
   eapply cntq_bind with (K2 := 0); [apply Hins| |rewrite Hb; lia].
   intros [upd|e|] Hupd; try (apply cntq_ret; [lia|exact I]).
   destruct upd as [x|]; [contradiction|].
